@@ -263,6 +263,9 @@ func (eq *externalBaseQueue) Purge() {
 			j.Close()
 		}
 	}
+
+	// let the dispatcher notice the empty queue and release barrier waiters
+	eq.w.notifyToPullNextJobs()
 }
 
 func (eq *externalBaseQueue) Close() error {
